@@ -162,9 +162,27 @@ def draw_decks(case):
         lambda: c10.build(_Sub(rng, rng.choice(c10.FAMILIES[:-1]), case.index,
                                case.tier, case.seed)),
     ]
+    def density_variants():
+        # one material at one numerical density written in several spellings
+        # that are NOT merged by the converter: several compositions whose
+        # order must not depend on the hash seed
+        deck = gen_cells.build(rng, rng.choice(['inter', 'partition',
+                                                'shared']))
+        val = rng.randint(2, 9)
+        forms = [f'-{val}', f'-{val}.0', f'-{val}e0', f'-0.{val}e1',
+                 f'-{val}0e-1', f'-{val}.', f'-{val}.0e+0', f'-{val}E0',
+                 f'-0{val}']
+        rng.shuffle(forms)
+        solid = [c for c in deck.cells if int(c.mat) != 0]
+        for cel, form in zip(solid, forms):
+            cel.mat = 1
+            cel.rho = form
+        return deck
+    makers.append(density_variants)
     decks = []
+    forced = [density_variants]
     for _ in range(rng.randint(3, 6)):
-        deck = rng.choice(makers)()
+        deck = (forced.pop() if forced else rng.choice(makers))()
         opts = list(deck.cli) + (c08.random_options(rng)
                                  if rng.random() < 0.6 else [])
         decks.append((M.render(deck), opts, 'valid'))
